@@ -82,6 +82,29 @@ def c10_g2(F, R):
     R.note(f"{len(src)} sources; functions that re-export hash order: {sorted(short(w) for w in wrappers)}; iterator types: {sorted(short(t) for t in iter_types)}")
 
 
+def _file_ids_deterministic(F, f):
+    """the Uuid comparisons in body f are all on a field called `file`, and no FileReader implementation in the analysed crates
+    makes its file ids with Uuid::new_v4: returns a description, else None"""
+    if "hir" not in f:
+        return None
+    cmps = [m for m in walk(f["hir"]["value"], pats=False) if m.get("k") == "MethodCall" and m["name"] in ("cmp", "partial_cmp") and "uuid::Uuid" in (peel(m["recv"]).get("ty") or "")]
+    if not cmps or not all(peel(m["recv"]).get("k") == "Field" and peel(m["recv"])["name"] == "file" for m in cmps):
+        return None
+    readers = [i for i in F.impls if (i.get("trait") or "").split("::")[-1] == "FileReader"]
+    if not readers:
+        return None
+    names = []
+    for i in readers:
+        ty = i["self_ty"]
+        names.append(short(ty))
+        for q, g in F.fns.items():
+            if "hir" not in g or not (q.startswith(ty + "::") or q.startswith("<" + ty + " as ")):
+                continue
+            if any(c.get("k") == "Call" and (callee_of(c) or "").endswith("Uuid::new_v4") for c in walk(g["hir"]["value"], pats=False)):
+                return None
+    return f"none of the file readers ({', '.join(sorted(names))}) makes file ids with Uuid::new_v4 (they are numbered in import order)"
+
+
 @rule("C10", "G2.uuid-ordering", floor=1)
 def c10_uuid(F, R):
     """no ordering decision on the output path compares random UUIDs (file / node identifiers)"""
@@ -99,6 +122,10 @@ def c10_uuid(F, R):
                 root = p.split("::{closure")[0]
                 key = f"{root}|Uuid::cmp"
                 why = exempt("G2.uuid-ordering", key)
+                det = _file_ids_deterministic(F, f)
+                if det:
+                    R.ok(key, detail=f"`{root}` orders by the `file` id only, and {det}", where=t["sp"])
+                    continue
                 if why:
                     R.ok(key, detail="E: " + why)
                 else:
